@@ -1,5 +1,5 @@
 (* Lemmas about the header collection of Model/Headers.v *)
-From Httoop Require Import Model.Headers.
+From Httoop Require Import Model.Headers Proofs.SplitP.
 
 Lemma bytes_eqb_sym a b : bytes_eqb a b = bytes_eqb b a.
 Proof.
@@ -64,3 +64,28 @@ Proof.
     + destruct (starts_ws l); [apply IH, HB|]. destruct (parse_line l); [apply IH, HB | reflexivity].
     + destruct (parse_line l); [apply IH, HB | reflexivity].
 Qed.
+
+(* Headers.parse of a block cut at a CRLF into two blocks: the fact incremental header parsing rests on *)
+Lemma starts_ws_app a b : a <> [] -> starts_ws (a ++ b) = starts_ws a.
+Proof. destruct a; [congruence | reflexivity]. Qed.
+
+Lemma hparse_app h A B : starts_ws B = false ->
+  hparse h (A ++ CRLF ++ B) = match hparse h A with Some h' => hparse h' B | None => None end.
+Proof.
+  intros HB. unfold hparse. rewrite Proofs.SplitP.split_all_app_CRLF. apply hparse_lines_app.
+  rewrite (Proofs.SplitP.split_all_eq CRLF B Proofs.SplitP.CRLF_ne).
+  destruct (cut CRLF B) as [[a b]|] eqn:Cu; [|exact HB].
+  apply Proofs.SplitP.cut_some in Cu; [|exact Proofs.SplitP.CRLF_ne]. subst B.
+  destruct a as [|c a]; [reflexivity|]. rewrite starts_ws_app in HB by discriminate. exact HB.
+Qed.
+
+Lemma hparse_lines_fail_app A : forall B h cur, hparse_lines h cur A = None -> hparse_lines h cur (A ++ B) = None.
+Proof.
+  induction A as [|l A IH]; intros B h cur; cbn [app hparse_lines]; [discriminate|].
+  destruct cur as [[name raw]|].
+  - destruct (starts_ws l); [apply IH|]. destruct (parse_line l); [apply IH | reflexivity].
+  - destruct (parse_line l); [apply IH | reflexivity].
+Qed.
+
+Lemma hparse_fail_app h A B : hparse h A = None -> hparse h (A ++ CRLF ++ B) = None.
+Proof. unfold hparse. rewrite split_all_app_CRLF. apply hparse_lines_fail_app. Qed.
